@@ -98,6 +98,11 @@ let run_case (ops : string list) : string list =
                  done;
                  String.concat " " (List.rev !items))
           end else
+          if t.(0) = "storm" then
+            (* concurrent traffic: judged by lib/storm.py on the implementation's observations (schedule-independent facts of
+               Proofs/ConcFacts.v) and replayed serially through this driver in the order the server applied it *)
+            "storm:-"
+          else
           if t.(0) = "race" then begin
             (* n fresh sessions send the same cSet: in the model one after the other (the core handles one request at a time) *)
             let n = int_of_string t.(1) in
